@@ -80,6 +80,13 @@ type VC struct {
 	lastFrame *Frame
 	meta     map[string]SV
 	vcells   map[string][]string
+	opaque   map[string]*opaqueDef
+	rec      *heapRec
+	recOwner *opaqueDef
+	quants   map[string]*quantInfo
+	revealed map[string]bool
+	grounding map[string]bool
+	binder   int
 	trace    []string
 }
 
@@ -121,7 +128,10 @@ func (vc *VC) def(sort, term string) string {
 		return term
 	}
 	n := vc.freshName("v")
-	vc.emit(fmt.Sprintf("(define-fun %s () %s %s)", n, sort, term))
+	// a constant plus a defining equation (not a define-fun macro: macros are
+	// expanded inside triggers, and triggers must not contain ite/store)
+	vc.emit(fmt.Sprintf("(declare-const %s %s)", n, sort))
+	vc.emit(fmt.Sprintf("(assert (= %s %s))", n, term))
 	return n
 }
 
@@ -201,6 +211,21 @@ func innerSort(arr string) string {
 }
 
 func (vc *VC) heapGet(name, sort string) string {
+	if vc.rec != nil {
+		// defining an opaque spec function: heap arrays are formal parameters
+		found := false
+		for _, n := range vc.rec.names {
+			if n == name {
+				found = true
+			}
+		}
+		if !found {
+			vc.rec.names = append(vc.rec.names, name)
+			vc.rec.sorts = append(vc.rec.sorts, sort)
+			vc.heapSort[name] = sort
+		}
+		return quoteSym("H:" + name)
+	}
 	if t, ok := vc.st.Heap[name]; ok {
 		return t
 	}
@@ -248,6 +273,10 @@ func (vc *VC) load(lv *LVal) SV {
 		}
 		return out
 	}
+	if lv.ByteView {
+		word, _, _, sh := vc.byteViewWord(lv)
+		return scalar(vc.def(bvSort(8), "((_ extract 7 0) (bvlshr "+word+" "+sh+"))"))
+	}
 	n := len(vc.eng.layoutOf(lv.Typ).L)
 	out := SV{L: make([]string, n)}
 	tl := vc.eng.layoutOf(lv.Typ).L
@@ -294,6 +323,14 @@ func (vc *VC) store(lv *LVal, v SV) {
 			cell[lv.Leaf+j] = nestedStore(cell[lv.Leaf+j], lv.Arr, v.L[j])
 		}
 		vc.vcells[lv.Ref] = cell
+		return
+	}
+	if lv.ByteView {
+		word, h, eidx, sh := vc.byteViewWord(lv)
+		vc.frameCheck(Loc{Space: 'E', TK: lv.TK, Lo: 0, Hi: 1, Ref: lv.Ref, Idx: eidx}, "store")
+		nw := "(bvor (bvand " + word + " (bvnot (bvshl (_ bv255 64) " + sh + "))) (bvshl ((_ zero_extend 56) " + v.L[0] + ") " + sh + "))"
+		name, sort := vc.heapOf(&LVal{Space: 'E', TK: lv.TK, ObjT: lv.ObjT, Typ: lv.ObjT}, 0)
+		vc.heapSet(name, sort, sto(h, lv.Ref, sto(sel(h, lv.Ref), eidx, nw)))
 		return
 	}
 	n := len(vc.eng.layoutOf(lv.Typ).L)
@@ -591,4 +628,19 @@ func (vc *VC) mergeStates(ss []*State) *State {
 		out.Ghost[k] = t
 	}
 	return out
+}
+
+// byteViewWord returns the 64-bit word a byte view points into, the heap term,
+// the element index and the bit shift of the byte, and obliges the access to stay
+// inside the slice the pointer was derived from.
+func (vc *VC) byteViewWord(lv *LVal) (word, h, eidx, shift string) {
+	name, sort := vc.heapOf(&LVal{Space: 'E', TK: lv.TK, ObjT: lv.ObjT, Typ: lv.ObjT}, 0)
+	h = vc.heapGet(name, sort)
+	eidx = vc.def(bvSort(64), "(bvadd "+lv.Idx+" (bvlshr "+lv.BOff+" (_ bv3 64)))")
+	if lv.Lim != "" {
+		vc.oblige("unsafe:byte-in-slice", []string{"aux"}, and("(bvule "+lv.Idx+" "+eidx+")", "(bvult "+eidx+" "+lv.Lim+")"))
+	}
+	word = vc.def(bvSort(64), sel(sel(h, lv.Ref), eidx))
+	shift = vc.def(bvSort(64), "(bvshl (bvand "+lv.BOff+" (_ bv7 64)) (_ bv3 64))")
+	return
 }
